@@ -231,6 +231,7 @@ MO = 'sedfitter/models.py'
 SO = 'sedfitter/source/source.py'
 
 MUST_FIRE = [
+    ('unused columns left out from the start, the error column not: limits read another filter\'s confidence', [(FR, "    # Calculate the 'default' chi^2 and handle special cases after\n", "    used = valid != 0\n    if not np.all(used):\n        valid, weight = valid[used], weight[used]\n        data, model = data[..., used], model[..., used]\n\n    # Calculate the 'default' chi^2 and handle special cases after\n")]),
     ('lower-limit penalty added as truth value x penalty (0 * inf is NaN at confidence 1)', [(FR, "        for j in np.where(valid == 2)[0]:\n            reset = model[:, j] < data[:, j]\n            chi2_array[:, j][reset] = -2. * np.log(1. - error[j])\n", "        for j in np.where(valid == 2)[0]:\n            reset = model[:, j] < data[:, j]\n            chi2_array[:, j] += reset * (-2. * np.log(1. - error[j]))\n")]),
     ('log-flux buffer inherits the caller dtype', [(SO, "log_flux = np.zeros(self.flux.shape, dtype=np.float64)", "log_flux = np.zeros_like(self.flux)")]),
     ('weight buffer created as integers', [(SO, "weight = np.zeros(self.valid.shape, dtype=np.float64)", "weight = np.zeros(self.valid.shape, dtype=int)")]),
@@ -254,6 +255,7 @@ MUST_FIRE = [
     ('upper limits treated like lower in chi2 mask', [(FR, "        for j in np.where(valid == 3)[0]:\n            reset = model[:, j] > data[:, j]", "        for j in np.where(valid >= 3)[0]:\n            reset = model[:, j] > data[:, j]")]),
 ]
 MUST_SILENT = [
+    ('unused columns left out from the start, in every per-filter array', [(FR, "    # Calculate the 'default' chi^2 and handle special cases after\n", "    used = valid != 0\n    if not np.all(used):\n        valid, weight = valid[used], weight[used]\n        data, model = data[..., used], model[..., used]\n        error = error[used]\n\n    # Calculate the 'default' chi^2 and handle special cases after\n")]),
     ('lower-limit penalty selected with np.where', [(FR, "        for j in np.where(valid == 2)[0]:\n            reset = model[:, j] < data[:, j]\n            chi2_array[:, j][reset] = -2. * np.log(1. - error[j])\n", "        for j in np.where(valid == 2)[0]:\n            reset = model[:, j] < data[:, j]\n            chi2_array[:, j] = np.where(reset, -2. * np.log(1. - error[j]), chi2_array[:, j])\n")]),
     ('buffers created with zeros_like and an explicit float dtype', [(SO, "log_flux = np.zeros(self.flux.shape, dtype=np.float64)", "log_flux = np.zeros_like(self.flux, dtype=float)")]),
     ('buffers created with the default dtype', [(SO, "log_error = np.zeros(self.error.shape, dtype=np.float64)", "log_error = np.zeros(self.error.shape)")]),
